@@ -5,6 +5,7 @@
 package flv
 
 import (
+	"errors"
 	"time"
 
 	"github.com/cnotch/ipchub/av/codec"
@@ -25,6 +26,9 @@ func NewH264Packetizer(meta *codec.VideoMeta, tagWriter TagWriter) Packetizer {
 }
 
 func (h264p *h264Packetizer) PacketizeSequenceHeader() error {
+	if len(h264p.meta.Sps) < 4 {
+		return errors.New("flv: H.264 sequence header needs an SPS of at least 4 bytes")
+	}
 	record := NewAVCDecoderConfigurationRecord(h264p.meta.Sps, h264p.meta.Pps)
 	body, _ := record.Marshal()
 
